@@ -286,6 +286,10 @@ fintWrapVerbose(AbSyn ab)
 	else if (abTag(ab) == AB_Define)
 		/* Definitions are printed specially. */;
 
+	else if (stabGetMeanings(stab, ablogFalse(), ssymTheStdout) == listNil(Syme))
+		/* No `stdout' in scope (e.g. axllib): the value cannot be echoed. */
+		tfHasPrintFlag = false;
+
 	else if ((tfHasPrintFlag = tfHasPrint(stab, type)) == true) {
 		/* (stdout << ab)$type */
 		op = abNewQualify(sposNone, abNewId(sposNone, ssymPrint),
